@@ -2,7 +2,7 @@ from pyvc import lean
 
 INFO = {
     "level": "proof",
-    "level_text": "(1) The ordering closure of perform_vehicle_state_updates is proved, from its real body (partition + two sorts), to return the same vehicles with every ChargeQueueing vehicle after all others, queueing vehicles in strictly increasing (enqueue_time, vehicle id), others in increasing id. (2) For ChargeQueueing.update (default update: terminal test, transition to ChargingStation, charge) it is proved for all states, through Inv02 and lemma L1, that (A) the update never frees a plug of any type at any station, (B) a vehicle still queueing after a successful update found no free plug of its type at its turn, (C) it starts charging only at its own station and plug type and only if a plug was free at its turn, and it leaves the queue only to charge. (1)+(A)+(B)+(C) give the property: when a later-queued vehicle gets a plug, every earlier one of that queue was processed before it and, if still waiting, saw zero free plugs, which (A) keeps at zero.",
+    "level_text": "The time by which the queue is ordered is the time of joining: the update of every activity is proved to record the current simulation time as enqueue_time when it moves a vehicle into ChargeQueueing (only DispatchStation's arrival at a full station does), and ChargeQueueing._perform_update keeps it while the vehicle waits. (1) The ordering closure of perform_vehicle_state_updates is proved, from its real body (partition + two sorts), to return the same vehicles with every ChargeQueueing vehicle after all others, queueing vehicles in strictly increasing (enqueue_time, vehicle id), others in increasing id. (2) For ChargeQueueing.update (default update: terminal test, transition to ChargingStation, charge) it is proved for all states, through Inv02 and lemma L1, that (A) the update never frees a plug of any type at any station, (B) a vehicle still queueing after a successful update found no free plug of its type at its turn, (C) it starts charging only at its own station and plug type and only if a plug was free at its turn, and it leaves the queue only to charge. (1)+(A)+(B)+(C) give the property: when a later-queued vehicle gets a plug, every earlier one of that queue was processed before it and, if still waiting, saw zero free plugs, which (A) keeps at zero.",
     "level_note": "the last composition step (induction over the queue phase of the loop from (1),(A),(B),(C)) is an argument over the contracts, not a mechanised obligation; (B) is stated for successful updates: a queued vehicle whose transition errors every step (full battery, plug type invalid for its powertrain — only an external controller can queue such a vehicle) is skipped, as recorded in DESIGN 4 C18; partition length lemma L6 and sorted-uniqueness L3 are Lean lemmas.",
     "trusted_base": ["sorted() returns a permutation of its input ordered by the key (python semantics)", "lemma L6 (partition lengths), L3 (strictly sorted lists with equal elements are equal), L1"],
     "assumptions": ["queued vehicles are eligible to charge (not full, plug type valid)"],
